@@ -36,7 +36,7 @@ TraceInit ==
            /\ P = ps[CHOOSE q \in 1..Len(ps) : ps[q].id = rr[i].p]
   /\ inp = run.inp
   /\ pos = 0 /\ ms = 0 /\ rs = 1 /\ fin = FALSE /\ cnt = 0 /\ nones = 0
-  /\ script = <<>> /\ hist = <<>>
+  /\ script = <<>> /\ hist = <<>> /\ guide = <<>>
   /\ verdict = "run"
 
 \* A produced event matches a recorded one when it agrees on every recorded field (a recording
